@@ -7,7 +7,7 @@ from harness import core
 from harness.core import Outcome
 
 ID = "C12"
-LEAN_TARGETS = ["BeyondVerif.Props.C12", "BeyondVerif.Props.C12Lines", "BeyondVerif.Witness.C12"]
+LEAN_TARGETS = ["BeyondVerif.Props.C12", "BeyondVerif.Props.C12Lines", "BeyondVerif.Props.C12Orb", "BeyondVerif.Witness.C12"]
 THEOREMS = [
     "BeyondVerif.C12.checksum_detects_digit_error",
     "BeyondVerif.C12.valid_iff",
@@ -29,6 +29,15 @@ THEOREMS = [
     "BeyondVerif.C12.from_string_no_memory",
     "BeyondVerif.C12.rejected_entry_leaves_no_trace",
     "BeyondVerif.C12.valid_entry_yielded_anywhere",
+    "BeyondVerif.C12.orbit_reads_exact",
+    "BeyondVerif.C12.epoch_from_utc_date",
+    "BeyondVerif.C12.accepted_writes_69_columns",
+    "BeyondVerif.C12.accepted_norad_fits",
+    "BeyondVerif.C12.norad_int_accepted_only",
+    "BeyondVerif.C12.norad_int_accepted",
+    "BeyondVerif.C12.read_reflects_current_values",
+    "BeyondVerif.C12.history_independent_of_source",
+    "BeyondVerif.C12.reads_do_not_change_the_orbit",
     "BeyondVerif.C12W.leading_blank_now_harmless",
     "BeyondVerif.C12W.from_string_keeps_valid_entry",
     "BeyondVerif.C12W.ecc_one_refused",
@@ -808,6 +817,284 @@ def o_from_string_blank_drag(out, rng):
 
 
 
+# ---------------------------------------------------------------- operation histories on one orbit (Model/TleOrb.lean)
+
+def gen_cospar_id(rng):
+    return "%d-%03d%s" % (rng.randint(1957, 2056), rng.randint(1, 999), "".join(rng.choice(UPPER) for _ in range(rng.choice([1, 2, 3]))))
+
+
+def gen_history(rng, n=None):
+    """-> (start form, record, list of ops). An op is a tuple: ('name', str|None) ('norad', ('i', int)|('s', str)|None) ('cospar', str|None)
+    ('num', field, value) ('epoch', yy, day8) ('ndot', neg, m8) ('ndd', unfl) ('bstar', unfl) ('elnb', int) ('revs', int) ('copy',) ('copyconv',)
+    ('reread',) ('read', name|None, norad|None, cospar|None)"""
+    start = rng.choice(["tle", "tle", "rec", "bare"])
+    r = gen_rec(rng)
+    ops = []
+    for _ in range(n or rng.randint(2, 9)):
+        k = rng.random()
+        if k < 0.30:
+            kw = [None, None, None]
+            if rng.random() < 0.25:
+                kw[0] = rng.choice(["", gen_name(rng)])
+            if rng.random() < 0.25:
+                kw[1] = rng.choice([("i", 0), ("i", rng.randint(0, 99999)), ("s", "%05d" % rng.randint(0, 99999)), ("i", 100000), ("s", "A0001"), ("s", "7")])
+            if rng.random() < 0.25:
+                kw[2] = rng.choice(["", gen_cospar_id(rng)])
+            ops.append(("read",) + tuple(kw))
+        elif k < 0.40:
+            ops.append(rng.choice([("copy",), ("copyconv",)]))
+        elif k < 0.47:
+            ops.append(("reread",))
+        elif k < 0.55:
+            ops.append(("name", rng.choice([None, "", gen_name(rng)])))
+        elif k < 0.63:
+            ops.append(("norad", rng.choice([None, ("i", 0), ("i", rng.randint(0, 99999)), ("i", 99999), ("i", 100000), ("s", "%05d" % rng.randint(0, 99999)), ("s", "A0001"), ("s", "42")])))
+        elif k < 0.70:
+            ops.append(("cospar", rng.choice([None, "", gen_cospar_id(rng)])))
+        else:
+            g = gen_rec(rng)
+            f = rng.choice(["inc4", "raan4", "argp4", "ma4", "ecc7", "mm8", "epoch", "ndot", "ndd", "bstar", "elnb", "revs", "ecc-one", "elnb-wide", "revs-wide"])
+            if f in ("inc4", "raan4", "argp4", "ma4", "ecc7", "mm8"):
+                ops.append(("num", f, g[{"mm8": "n8", "ecc7": "e7", "inc4": "i4"}.get(f, f)]))
+            elif f == "epoch":
+                ops.append(("epoch", g["yy"], g["day8"]))
+            elif f == "ndot":
+                ops.append(("ndot",) + tuple(g["ndot"]))
+            elif f in ("ndd", "bstar"):
+                ops.append((f, g[f]))
+            elif f in ("elnb", "revs"):
+                ops.append((f, g[f]))
+            elif f == "ecc-one":
+                ops.append(("num", "ecc7", 10**7))
+            elif f == "elnb-wide":
+                ops.append(("elnb", 10000))
+            else:
+                ops.append(("revs", 100000))
+    ops.append(("read", None, None, None))
+    return start, r, ops
+
+
+def hist_start(start, r):
+    """the real orbit a history starts from"""
+    from beyond.io.tle import Tle
+    if start == "tle":
+        return Tle(spec_text(r)).orbit()
+    orb = rec_to_orbit(r)
+    if start == "bare":
+        for k in ("name", "norad_id", "cospar_id"):
+            del orb._data[k]
+    return orb
+
+
+def hist_apply(orb, cur, op, rng=None):
+    """apply one non-read op to the real orbit (in place where the op is an in-place modification); cur is the shadow record. -> orbit"""
+    import math
+    from datetime import datetime, timedelta
+    from beyond.dates import Date
+    from beyond.io.tle import Tle
+    k = op[0]
+    alt = rng is not None and rng.random() < 0.5     # attribute name or index / item access: two routes to the same cell
+    if k == "name":
+        if op[1] is None:
+            orb._data.pop("name", None)
+        else:
+            orb.name = op[1]
+    elif k == "norad":
+        if op[1] is None:
+            orb._data.pop("norad_id", None)
+        else:
+            orb.norad_id = op[1][1]
+    elif k == "cospar":
+        if op[1] is None:
+            orb._data.pop("cospar_id", None)
+        else:
+            orb.cospar_id = op[1]
+    elif k == "num":
+        f, v = op[1], op[2]
+        cur[{"mm8": "n8", "ecc7": "e7", "inc4": "i4"}.get(f, f)] = v
+        idx = {"inc4": 0, "raan4": 1, "ecc7": 2, "argp4": 3, "ma4": 4, "mm8": 5}[f]
+        val = v / 1e7 if f == "ecc7" else (v / 1e8 * 2 * math.pi / 86400.0 if f == "mm8" else math.radians(v / 1e4))
+        if alt:
+            orb[idx] = val
+        else:
+            setattr(orb, ["i", "Ω", "e", "ω", "M", "n"][idx], val)
+    elif k == "epoch":
+        cur["yy"], cur["day8"] = op[1], op[2]
+        orb.date = Date(datetime(full_year(op[1]), 1, 1) + timedelta(microseconds=(op[2] - 10**8) * 864))
+    elif k == "ndot":
+        cur["ndot"] = (op[1], op[2])
+        v = op[2] / 1e8 * 2
+        if alt:
+            orb["ndot"] = -v if op[1] else v
+        else:
+            orb.ndot = -v if op[1] else v
+    elif k == "ndd":
+        cur["ndd"] = op[1]
+        orb.ndotdot = float(unfl_value(op[1])) * 6
+    elif k == "bstar":
+        cur["bstar"] = op[1]
+        orb.bstar = float(unfl_value(op[1]))
+    elif k == "elnb":
+        cur["elnb"] = op[1]
+        orb.element_nb = op[1]
+    elif k == "revs":
+        cur["revs"] = op[1]
+        orb.revolutions = op[1]
+    elif k == "copy":
+        orb = orb.copy()
+    elif k == "copyconv":
+        orb = orb.copy(form="TLE", frame="TEME")
+    elif k == "reread":
+        try:
+            orb = Tle.from_orbit(orb).orbit()
+        except ValueError:
+            pass
+    return orb
+
+
+def hist_read(orb, op):
+    from beyond.io.tle import Tle
+    kw = {}
+    if op[1] is not None:
+        kw["name"] = op[1]
+    if op[2] is not None:
+        kw["norad_id"] = op[2][1]
+    if op[3] is not None:
+        kw["cospar_id"] = op[3]
+    try:
+        return "ok " + str(Tle.from_orbit(orb, **kw)), kw
+    except Exception as e:  # noqa
+        return real_error_token(e), kw
+
+
+def hist_line(start, r, ops):
+    def optstr(v):
+        return "-" if v is None else hx(v)
+
+    def optid(v):
+        return "-" if v is None else ("i%d" % v[1] if v[0] == "i" else "s" + hx(v[1]))
+
+    def u(x):
+        return "z" if x[1] == 0 else f"{1 if x[0] else 0} {x[1]} {x[2]}"
+    if start == "bare":
+        ident = ["-", "-", "-"]
+    else:
+        ident = [hx(r["name"]), "i%d" % r["norad"], hx(rec_cospar_id(r))]
+    toks = ["tle.hist"] + ident + ["1" if start == "tle" else "0"] + rec_line(r).split(" ")[1:]
+    for op in ops:
+        k = op[0]
+        if k in ("name", "cospar"):
+            t = [k, optstr(op[1])]
+        elif k == "norad":
+            t = [k, optid(op[1])]
+        elif k == "num":
+            t = ["num", op[1], str(op[2])]
+        elif k == "epoch":
+            t = ["num", "yy", str(op[1]), "|", "num", "day8", str(op[2])]
+        elif k == "ndot":
+            t = ["ndotneg", "1" if op[1] else "0", "|", "num", "ndot8", str(op[2])]
+        elif k in ("ndd", "bstar"):
+            t = [k] + u(op[1]).split(" ")
+        elif k in ("elnb", "revs"):
+            t = [k, str(op[1])]
+        elif k in ("copy", "copyconv"):
+            t = ["copy"]
+        elif k == "reread":
+            t = ["reread"]
+        else:
+            t = ["read", optstr(op[1]), optid(op[2]), optstr(op[3])]
+        toks += ["|"] + t
+    return " ".join(toks)
+
+
+def k_history(out, rng, n):
+    """sequence correspondence: random histories on one real orbit vs the compiled state machine"""
+    hs = [gen_history(rng) for _ in range(n)]
+    reqs = [hist_line(*h) for h in hs]
+    for (start, r, ops), m, req in zip(hs, core.Driver().run(reqs), reqs):
+        orb = hist_start(start, r)
+        cur = dict(r)
+        real = []
+        for op in ops:
+            if op[0] == "read":
+                real.append(hist_read(orb, op)[0])
+            else:
+                orb = hist_apply(orb, cur, op, rng)
+        model = []
+        for x in (m.split(" ; ") if m else []):
+            model.append("ok " + "\n".join(unhx(y) for y in x[3:].split(",")) if x.startswith("ok ") else x)
+        out.count(key=("hist", req), kind="history", start=start, reads=len(real), ops=len(ops))
+        for op in ops:
+            out.tally("hist-op=" + op[0])
+        if real != model:
+            k = next((i for i, (a, b) in enumerate(zip(real, model)) if a != b), min(len(real), len(model)))
+            out.fail("history", "a read after a history of modifications differs from the model", {"start": start, "record": r, "ops": ops, "read": k},
+                     observed=real[k] if k < len(real) else real, expected=model[k] if k < len(model) else model)
+    out.sample({"request": reqs[0][:200], "reply": "(see correspondence)"}, limit=3)
+
+
+ID_KEYS = ("bstar", "ndot", "ndotdot", "name", "cospar_id", "norad_id", "element_nb", "revolutions", "type")
+
+
+def fresh_orbit(orb):
+    """a new orbit holding the current values of `orb` and nothing else (no source Tle)"""
+    return real_orbit([float(x) for x in orb], orb.date, **{k: orb._data[k] for k in ID_KEYS if k in orb._data})
+
+
+def run_history(out, start, r, ops, rng=None):
+    """clause 'after any in-place modification, Tle.from_orbit reflects the current values' on one history"""
+    from beyond.io.tle import Tle
+    orb = hist_start(start, r)
+    cur = dict(r)
+    ident_touched = start == "bare"
+    last_mod = "none"
+    inp = {"start": start, "record": r, "ops": ops}
+    for n_op, op in enumerate(ops):
+        if op[0] != "read":
+            orb = hist_apply(orb, cur, op, rng)
+            if op[0] in ("name", "norad", "cospar"):
+                ident_touched = True
+            if op[0] not in ("copy", "copyconv", "reread"):
+                last_mod = op[0] if op[0] != "num" else op[1]
+            continue
+        got, kw = hist_read(orb, op)
+        try:
+            want = "ok " + str(Tle.from_orbit(fresh_orbit(orb), **kw))
+        except Exception as e:  # noqa
+            want = real_error_token(e)
+        if got != want:
+            out.fail("history-read-differs-from-fresh-after-" + last_mod, "Tle.from_orbit on an orbit with a history differs from Tle.from_orbit on a fresh orbit holding the same values",
+                     dict(inp, read=n_op), observed=got, expected=want)
+            return
+        in_range = cur["e7"] < 10**7 and cur["elnb"] < 10000 and cur["revs"] < 100000
+        if not ident_touched and not kw and in_range:
+            spec = "ok " + spec_text(cur)
+            if got != spec:
+                out.fail("history-read-stale-after-" + last_mod, "Tle.from_orbit does not show the current values of the orbit", dict(inp, read=n_op), observed=got, expected=spec)
+                return
+
+
+def o_history(out, rng):
+    start, r, ops = gen_history(rng)
+    out.count(key=hist_line(start, r, ops), kind="history", start=start)
+    run_history(out, start, r, ops, rng)
+
+
+def o_history_directed(out, rng):
+    """parse, take the orbit, change ONE thing in place, write: for every thing that can be changed, with and without a copy in between"""
+    g = gen_rec(rng)
+    mods = [("num", f, g[{"mm8": "n8", "ecc7": "e7", "inc4": "i4"}.get(f, f)]) for f in ("inc4", "raan4", "argp4", "ma4", "ecc7", "mm8")] + \
+           [("ndot",) + tuple(g["ndot"]), ("ndd", g["ndd"]), ("bstar", g["bstar"]), ("elnb", g["elnb"]), ("revs", g["revs"]), ("epoch", g["yy"], g["day8"])]
+    for mod in mods:
+        for mid in ([], [("copy",)], [("read", None, None, None)], [("copyconv",), ("read", None, None, None)]):
+            for start in ("tle", "rec"):
+                r = gen_rec(rng)
+                ops = mid + [mod] + [("read", None, None, None)]
+                out.count(key=hist_line(start, r, ops), kind="history-directed")
+                run_history(out, start, r, ops, rng)
+
+
+
 def o_unfloat(out, rng):
     from beyond.io.tle import _float, _unfloat
     u = gen_unfl(rng)
@@ -845,6 +1132,10 @@ def oracle(ctx, widened):
     for _ in range(5 if big else 1):
         o_from_string_pairs(out, rng)
     o_from_string_blank_drag(out, rng)
+    for _ in range(3000 if big else 300):
+        o_history(out, rng)
+    for _ in range(3 if big else 1):
+        o_history_directed(out, rng)
     out.sample({"checked": "parse->write identity, write->parse elements, 69 columns + checksums, every digit/length/line-number corruption rejected, from_string yields exactly the valid entries"})
     return out
 
@@ -880,6 +1171,14 @@ def replay(f):
         k, t = try_parse(i["text"])
         if k == "ok" or k.startswith("other"):
             out.fail(fam, f["what"], i, observed=k)
+    elif "ops" in i:
+        ops = [tuple(tuple(x) if isinstance(x, list) else x for x in op) for op in i["ops"]]
+        r = dict(i["record"])
+        for k in ("ndot", "ndd", "bstar"):
+            r[k] = tuple(r[k])
+        run_history(out, i["start"], r, ops)
+        for x in out.failures:
+            x["family"] = fam
     elif "lines" in i and "tokens" in i:
         judge_from_string_lines(out, i["lines"], i["tokens"], fam.rsplit("-", 1)[-1] if False else "replay")
         for x in out.failures:
@@ -1212,6 +1511,89 @@ def read_writer(tree):
     return parse_format(fmts["line1"][0]), parse_format(fmts["line2"][0])
 
 
+def read_orbit_uses(tree):
+    """every use of the parameter `orbit` inside Tle.from_orbit, in source order, without repetitions: attribute names, hasattr/getattr
+    probes, the re-assignment by copy(), the unpacking of the six elements; anything else shows up as '<other:…>'"""
+    fo = _find(tree, "Tle", "from_orbit")
+    parents = {}
+    for node in ast.walk(fo):
+        for ch in ast.iter_child_nodes(node):
+            parents[ch] = node
+    uses = []
+    for node in ast.walk(fo):
+        if isinstance(node, ast.Name) and node.id == "orbit":
+            par = parents[node]
+            if isinstance(node.ctx, ast.Store):
+                tok = "<assign>"
+            elif isinstance(par, ast.Attribute) and par.value is node:
+                tok = par.attr
+            elif (isinstance(par, ast.Call) and isinstance(par.func, ast.Name) and par.func.id in ("hasattr", "getattr") and par.args and par.args[0] is node
+                  and len(par.args) >= 2 and isinstance(par.args[1], ast.Constant)):
+                tok = f"{par.func.id}:{par.args[1].value}"
+            elif isinstance(par, ast.Assign) and par.value is node and isinstance(par.targets[0], ast.Tuple):
+                tok = f"<unpack{len(par.targets[0].elts)}>"
+            else:
+                tok = f"<other:{type(par).__name__}>"
+            uses.append((node.lineno, node.col_offset, tok))
+        elif isinstance(node, ast.arg) and node.arg == "orbit":
+            pass
+    uses.sort()
+    out = []
+    for _, _, t in uses:
+        if t not in out:
+            out.append(t)
+    date_expr = None
+    copy_expr = None
+    for st in fo.body:
+        if isinstance(st, ast.Assign) and isinstance(st.targets[0], ast.Name):
+            if st.targets[0].id == "date":
+                date_expr = ast.unparse(st.value).replace('"', "'")
+            if st.targets[0].id == "orbit":
+                copy_expr = ast.unparse(st.value).replace('"', "'")
+    if date_expr is None or copy_expr is None:
+        raise RuntimeError("Tle.from_orbit no longer assigns `date` / re-assigns `orbit`")
+    return out, date_expr, copy_expr
+
+
+FROM_ORBIT_HEAD = '''
+if name is not None:
+    name = f"{name}\\n"
+elif hasattr(orbit, "name") and orbit.name:
+    name = f"{orbit.name}\\n"
+else:
+    name = ""
+
+if norad_id is None:
+    if hasattr(orbit, "norad_id"):
+        norad_id = orbit.norad_id
+    else:
+        norad_id = "99999"
+
+if cospar_id is not None:
+    y, _, i = cospar_id.partition("-")
+    cospar_id = y[2:] + i
+elif hasattr(orbit, "cospar_id"):
+    y, _, i = orbit.cospar_id.partition("-")
+    cospar_id = y[2:] + i
+else:
+    cospar_id = ""
+'''
+
+
+def check_from_orbit_head(tree):
+    """the resolution of name / norad_id / cospar_id (Model/TleOrb.lean effName, effNorad, effCospar) is modelled by hand: it must still be,
+    statement for statement, the source the model was written from"""
+    fo = _find(tree, "Tle", "from_orbit")
+    body = fo.body
+    if body and isinstance(body[0], ast.Expr) and isinstance(body[0].value, ast.Constant):
+        body = body[1:]
+    want = [ast.dump(x) for x in ast.parse(FROM_ORBIT_HEAD).body]
+    if [ast.dump(x) for x in body[:3]] != want:
+        raise RuntimeError("the resolution of name / norad_id / cospar_id at the top of Tle.from_orbit differs from the source Model/TleOrb.lean was written from")
+    if ast.dump(fo.args) != ast.dump(ast.parse("def f(cls, orbit, name=None, norad_id=None, cospar_id=None): pass").body[0].args):
+        raise RuntimeError("the signature of Tle.from_orbit differs from the modelled one")
+
+
 def extract(ctx):
     tree = ast.parse(open(TLE_PY).read())
     check_modelled_shape(tree)
@@ -1219,6 +1601,8 @@ def extract(ctx):
     cols = read_columns(tree)
     ck = read_checksum(tree)
     f1, f2 = read_writer(tree)
+    check_from_orbit_head(tree)
+    uses, date_expr, copy_expr = read_orbit_uses(tree)
     out = ["/- GENERATED by harness/props/C12.py (extract) from beyond/io/tle.py on every run: column slices of Tle.__init__,",
            "   constants of Tle._checksum / _check_validity, field layout of the two format strings of Tle.from_orbit. -/",
            "namespace BeyondVerif.Generated.Tle", "",
@@ -1237,7 +1621,13 @@ def extract(ctx):
            f"def ckLen : Nat := {ck['cklen']}",
            f"def lineLen : Nat := {ck['linelen']}",
            f"def ckPos : Nat := {ck['ckpos']}",
-           "def pivot : Nat := 57", ""]
+           "def pivot : Nat := 57", "",
+           "/-- every use of the parameter `orbit` in Tle.from_orbit, in source order (attribute names, hasattr probes, re-assignment, unpacking) -/",
+           "def orbitReads : List String := [" + ", ".join(_lean_str(u) for u in uses) + "]",
+           "/-- the expression assigned to `date` (what the year, the day of year and the day fraction are all taken from) -/",
+           f"def dateExpr : String := {_lean_str(date_expr)}",
+           "/-- the expression `orbit` is re-assigned to before its elements are read -/",
+           f"def copyExpr : String := {_lean_str(copy_expr)}", ""]
     for k, lean in LEAN_NAMES.items():
         v, a, b = cols[k]
         out.append(f"def {lean} : Nat × Nat := ({a}, {b})   -- {v}[{a}:{b}]")
@@ -1661,4 +2051,5 @@ def correspondence(ctx):
     k_write(out, wr)
     k_floats(out, rng, ctx.n(1500, 30000))
     k_from_string(out, rng, ctx.n(300, 5000))
+    k_history(out, rng, ctx.n(500, 8000))
     return out
